@@ -56,7 +56,7 @@ TRUSTED = ["harness tokeniser of period-key / date texts (regular expressions ->
            "numpy conversions (astype, datetime64 parsing, linspace, meshgrid, tile) are modelled, covered by the "
            "correspondence only"]
 ASSUMPTIONS = ["period keys are ISO-format dates (no ISO-week texts), sizes >= 1, years 1000..9999",
-               "amounts given to divide-rule variables are multiples of 27720 so that every share is exact in float32",
+               "amounts given to divide-rule variables are multiples of 166320 (6 * lcm(1..12)) so that every share, also of a year around a shared quarter, is exact",
                "floats are multiples of 1/4 below 2^24; ints stay within int32 (int16 for enum indices)",
                "texts given to numeric variables are decimal literals or alphabetic words (numexpr expressions are not generated)",
                "values are scalars in the entity shapes and scalars or homogeneous arrays in the variables-only shape",
@@ -70,7 +70,7 @@ UNAME = ["weekday", "week", "day", "month", "year", "eternity"]
 UCOQ = ["Weekday", "Week", "Day", "Month", "Year", "Eternity"]
 UCODE = {u: i for i, u in enumerate(UNITS)}
 EPOCH = datetime.date(1970, 1, 1).toordinal()
-BASE = 27720
+BASE = 166320        # 6 * lcm(1..12): a quarter's share is still divisible by any number of months
 
 
 # ---- the systems ------------------------------------------------------------------------
@@ -875,7 +875,11 @@ def gen_plan(rng, v):
         if rng.random() < 0.2:
             ps.append(P("month", ps[0].y, 1, size=12))
         if rule != "none" and rng.random() < 0.5:
-            ps.append(P("year", 2018, size=rng.choice([2, 3, 5])))
+            k = rng.choice([2, 3, 5])
+            # the long period keeps at least one year that is not declared on its own
+            ps = [p for p in ps if not (p.unit == "year" and p.y == 2018 + k - 1)
+                  and not (p.unit == "month" and p.y == 2018 + k - 1)]
+            ps.append(P("year", 2018, size=k))
         return ps
     if u == "day":
         ps = [P("day", y, rng.randint(1, 12), rng.randint(1, 28)) for _ in range(rng.randint(1, 3))]
@@ -984,7 +988,8 @@ def gen_vars_doc(rng, S):
     for v in cands[:rng.randint(1, 5)]:
         plan = gen_plan(rng, v)
         # no canonicalisation in this shape: a 12-month key stays a month period
-        plan = [p for p in plan if not (p.unit == "month" and p.size == 12 and v["rule"] == "none")]
+        plan = [p for p in plan if not (p.unit == "month" and p.size == 12
+                                        and (v["rule"] == "none" or v["unit"] == "year"))]
         plan = [p for p in plan if p.tag == 0 or p.unit == "week"] or [gen_plan(rng, v)[0]]
         chosen = [p for p in plan if rng.random() < 0.6] or [plan[0]]
         rng.shuffle(chosen)
@@ -1000,7 +1005,7 @@ def gen_vars_doc(rng, S):
                           if not isinstance(x, str) or not numeric)
                 xs = [x0] * n
             as_scalar = n == 1 and rng.random() < 0.5
-            if as_scalar and numeric and rng.random() < 0.15:
+            if as_scalar and numeric and v["rule"] != "divide" and rng.random() < 0.15:
                 xs = [rng.choice(["12", "2.5", "-3", "1980"])]
             vals[p] = xs[0] if as_scalar else xs
         doc[v["name"]] = vals
@@ -1276,6 +1281,14 @@ def mutate_entities(rng, S, doc, cls):
     raise ValueError(cls)
 
 
+def gen_array_value(rng, v):
+    """A value usable inside an array of the variables-only shape (no texts for numbers)."""
+    while True:
+        x = gen_value(rng, v, divisible=v["rule"] == "divide")
+        if not (isinstance(x, str) and v["type"] in ("int", "float")):
+            return x
+
+
 def mutate_vars(rng, S, doc, cls):
     d = copy.deepcopy(doc)
     n = 1
@@ -1303,14 +1316,14 @@ def mutate_vars(rng, S, doc, cls):
     if cls == "unparsable_period":
         vn = rng.choice(list(d))
         d[vn] = dict(d[vn])
-        d[vn][rng.choice(BAD_PERIODS)] = arr(gen_value(rng, S.var[vn], divisible=S.var[vn]["rule"] == "divide"))
+        d[vn][rng.choice(BAD_PERIODS)] = arr(gen_array_value(rng, S.var[vn]))
         return d
     if cls == "mismatched_period":
         v = rng.choice([v for v in S.vars if v["unit"] != "eternity" and not v["end"]])
         key = mismatch_key(rng, v)
         if key is None or key == "month:2018-01:12":
             return None
-        d[v["name"]] = {key: arr(gen_value(rng, v, divisible=v["rule"] == "divide"))}
+        d[v["name"]] = {key: arr(gen_array_value(rng, v))}
         return d
     return None
 
